@@ -116,7 +116,12 @@ Fixpoint clocks_from (last : tv) (l : list tv) : Prop :=
   | c :: r => (us last <= us c)%N /\ clocks_from c r
   end.
 
-(* descriptors are C ints *)
+(* descriptors are C ints: FD_LIMIT = INT_MAX + 1 is the bound of the TYPE of the argument `int s`
+   of events_network_register (used below only to keep the socket list, hence nfds, below 2^64).
+   It is deliberately not the stricter bound that growpollfd asserts (assert(fd < INT_MAX)): that
+   assert is part of the model (EventsModel.growpollfd answers AssertFail for fd = INT_MAX, so such a
+   run has no trace and the theorems here do not speak about it); the contract `fd < INT_MAX`
+   under which no assert fails is EventsProgress.op_safe. *)
 Definition FD_LIMIT : N := 2147483648.
 
 Record Ext5 (s : st) (c : c5) : Prop := {
@@ -174,6 +179,17 @@ Section Sim5.
     intros HG HG' Ht He HO' Hi' HX'. split; [exact HG'|].
     split; [eapply csteps5_emit; eauto; apply HG|]. split; [exact HO'|]. split; [exact Hi' | exact HX'].
   Qed.
+
+  (* a refused first timer registration may leave the (empty) timer queue initialised *)
+  Lemma G5_tmr_inited s c : G5 s c -> G5 (tmr_with s (heap (s_tmr s))) c.
+  Proof.
+    intros [HG [Hc [HO [Hi HX]]]]. split; [apply Good_tmr_inited; exact HG|].
+    split; [exact Hc|]. split; [exact HO|]. split; [exact Hi|].
+    destruct HX as [A B C D E F G]. constructor; simpl; auto. intros X; discriminate X.
+  Qed.
+
+  Lemma G5_timer_refused af s c : G5 s c -> G5 (timer_register_refused af s) c.
+  Proof. intros H. unfold timer_register_refused. destruct (3 <=? af); [apply G5_tmr_inited|]; exact H. Qed.
 
   (* an interrupt request is remembered for the whole run *)
   Lemma intr_run_step c e c' :
@@ -379,6 +395,16 @@ Proof.
   destruct (pollpos k3) as [pp|]; [|discriminate].
   destruct (rdn (fds n3) pp) as [p| | |]; cbn [bind] in H; try discriminate.
   inversion H; subst n'. simpl. rewrite H3. exact H1.
+Qed.
+
+Lemma net_register_refused_socks stage cb fd op rid n0 :
+  (N.of_nat (length (socks n0)) <= FD_LIMIT)%N -> (fd < Z.of_N FD_LIMIT)%Z ->
+  (N.of_nat (length (socks (net_register_refused stage cb fd op rid n0))) <= FD_LIMIT)%N.
+Proof.
+  intros Hlen Hfd. pose proof (net_init_socks_len n0) as Hi.
+  destruct (net_register_refused_cases stage cb fd op rid n0) as [-> | [-> | [H0 ->]]]; [exact Hlen | lia |].
+  unfold net_grown. destruct (length (socks (net_init n0)) <=? Z.to_nat fd); [|lia].
+  rewrite growsocketlist_len. unfold FD_LIMIT in *. lia.
 Qed.
 
 Lemma net_cancel_socks fd op n0 x n' :
@@ -627,8 +653,11 @@ Section Ops5.
           eexists. eapply (G5_passive s _ _ c); [exact HG | exact HGood' | reflexivity | reflexivity | solve_passive | | | | | | |];
             try reflexivity; simpl; try lia; assumption.
       + inversion H; subst s'.
+        destruct (net_register_refused_spec (S af) cb fd opn (next_rid (s_cl s)) (s_net s) (sm_net s x4 HS)) as [_ [_ [_ Hfds]]].
         eexists. eapply (G5_passive s _ _ c); [exact HG | exact HGood' | reflexivity | reflexivity | solve_passive | | | | | | |];
-          try reflexivity; simpl; try lia; apply HX.
+          try reflexivity; simpl; try lia.
+        * apply net_register_refused_socks; [apply HX | exact Hfd].
+        * eapply evnz_same_fds; [exact Hfds | apply HX].
     - (* ONetCancel *)
       unfold exec_op in H.
       destruct (net_cancel fd opn (s_net s)) as [[x n]| | |] eqn:En; cbn [bind] in H; try discriminate.
@@ -647,7 +676,7 @@ Section Ops5.
         eexists. eapply (G5_passive s _ _ c); [exact HG | exact HGood' | reflexivity | reflexivity | solve_passive | | | | | | |];
           try reflexivity; simpl; try lia; assumption.
     - (* OTimerReg *)
-      unfold exec_op in H. destruct af as [|[|af]]; cbn [Nat.eqb negb] in H.
+      unfold exec_op in H. destruct af as [|af]; cbn [Nat.eqb negb] in H.
       + destruct (timer_register cb t (next_rid (s_cl s)) s) as [s1| | |] eqn:Er; cbn [bind] in H; try discriminate.
         inversion H; subst s'. clear H.
         unfold timer_register in Er. destruct (read_clock s) as [now s0] eqn:Ec.
@@ -674,16 +703,20 @@ Section Ops5.
              ++ apply (x_armed s0 c1 HX1 x Hx).
           -- apply (x_socks s0 c1 HX1).
           -- apply (x_evnz s0 c1 HX1).
-      + inversion H; subst s'.
-        eexists. eapply (G5_passive s _ _ c); [exact HG | exact HGood' | reflexivity | reflexivity | solve_passive | | | | | | |];
-          try reflexivity; simpl; try lia; apply HX.
-      + destruct (read_clock s) as [now s0] eqn:Ec. inversion H; subst s'.
-        destruct (g5_read_clock s c now s0 HG Ec) as [c1 [HG1 [Hctl1 _]]].
-        pose proof (G5_ext fl s0 c1 HG1) as HX1.
-        assert (X : exists c', G5 fl (emit (ERegFailTimer t ENOMEM) s0) c' /\ ctl_same c1 c').
-        { eexists. eapply (G5_passive s0 _ _ c1); [exact HG1 | exact HGood' | reflexivity | reflexivity | solve_passive | | | | | | |];
-            try reflexivity; simpl; try lia; apply HX1. }
-        destruct X as [c' [A B]]. exists c'. split; [exact A | eapply ctl_same_trans; eauto].
+      + (* refused: the timer queue may stay initialised (same heap) *)
+        pose proof (G5_timer_refused fl (S af) s c HG) as HG0.
+        set (s0r := timer_register_refused (S af) s) in *.
+        destruct (Nat.odd (S af)).
+        * inversion H; subst s'.
+          eexists. eapply (G5_passive s0r _ _ c); [exact HG0 | exact HGood' | reflexivity | reflexivity | solve_passive | | | | | | |];
+            try reflexivity; simpl; try lia; apply (G5_ext fl s0r c HG0).
+        * destruct (read_clock s0r) as [now s0] eqn:Ec. inversion H; subst s'.
+          destruct (g5_read_clock s0r c now s0 HG0 Ec) as [c1 [HG1 [Hctl1 _]]].
+          pose proof (G5_ext fl s0 c1 HG1) as HX1.
+          assert (X : exists c', G5 fl (emit (ERegFailTimer t ENOMEM) s0) c' /\ ctl_same c1 c').
+          { eexists. eapply (G5_passive s0 _ _ c1); [exact HG1 | exact HGood' | reflexivity | reflexivity | solve_passive | | | | | | |];
+              try reflexivity; simpl; try lia; apply HX1. }
+          destruct X as [c' [A B]]. exists c'. split; [exact A | eapply ctl_same_trans; eauto].
     - (* OTimerCancel *)
       unfold exec_op in H.
       destruct (get_var var (vars (s_cl s))) as [[r [prio|]]|] eqn:Ev;
